@@ -271,10 +271,13 @@ impl Ctx {
         self.samples.lock().unwrap().clone()
     }
     pub fn violation(&self, signature: impl Into<String>, detail: impl Into<String>) {
+        // at most 10 witnesses per signature, so that a frequent (e.g. known) one cannot crowd out others
+        let signature = signature.into();
         let mut v = self.violations.lock().unwrap();
-        if v.len() < 200 {
+        let same = v.iter().filter(|x| x.signature == signature).count();
+        if same < 10 && v.len() < 2000 {
             v.push(Violation {
-                signature: signature.into(),
+                signature,
                 detail: detail.into(),
             });
         }
